@@ -164,10 +164,9 @@ def check_trim(c, repo):
     W = sn[0][1].args[0].id if sn[0][1].args and isinstance(sn[0][1].args[0], ast.Name) else None
     c.need(W, 'do_search: window variable not found')
     idx = sn[0][0].ast.targets[0].id
-    tests = find_test_nodes(f, lambda t: compare_parts(t) is not None and is_name(compare_parts(t)[0], idx)
-                            and isinstance(compare_parts(t)[1], ast.GtE))
-    c.need(len(tests) == 1, 'match test not found')
-    miss = guard_region(g, tests[0], 'false')
+    tests = found_tests(g, idx)
+    c.need(len(tests) == 1 and tests[0][1] != 'wrong', 'match test not found')
+    miss = guard_region(g, tests[0][0], other(tests[0][1]))
     trims = []
     for n in miss:
         for k in node_calls(n):
@@ -427,6 +426,7 @@ MUTANTS = [
     ('lookback-none', 'expect', "            self.lookback = searcher.longest_string", "            self.lookback = 1", 'D2'),
 ]
 PRESERVING = [
+    ('clamp-min', 'expect', '        if freshlen > len(window):\n            freshlen = len(window)\n', '        freshlen = min(freshlen, len(window))\n'),
     ('offset-plus-extra', 'expect', "offset = -(freshlen + len(s))", "offset = -(freshlen + len(s) + 1)"),
     ('longest-max', 'expect', "            if len(s) > self.longest_string:\n                self.longest_string = len(s)\n", "            self.longest_string = max(self.longest_string, len(s))\n"),
     ('existing-elif-le', 'expect', "            elif buf_len < self.searchwindowsize:", "            elif buf_len <= self.searchwindowsize:"),
